@@ -36,3 +36,14 @@ package cfedistributor
 //@       $evTag[$evCount - \i + j] == typeId("*types.Distribution") && allocated(ptr("*types.Distribution", $evRef[$evCount - \i + j]))
 //@       && ptr("*types.Distribution", $evRef[$evCount - \i + j]).Amount == distributions[j].Amount
 //@       && ptr("*types.Distribution", $evRef[$evCount - \i + j]).Subdistributor == distributions[j].Subdistributor
+
+//@ // ---- genesis import (C10 / C12): every state is stored with an account, the burn state with the empty one the keeper
+//@ // expects in memory (the exported genesis carries nil there, as State.Validate demands) ----
+//@ func InitGenesis(ctx, k, genState, ak)
+//@   // what GenesisState.Validate established: every state is present, and a non-burn state names its account
+//@   requires forall i: int :: {genState.States[i]} 0 <= i && i < len(genState.States) ==> genState.States[i] != nil && (!genState.States[i].Burn ==> genState.States[i].Account != nil)
+//@   modifies $stLogN, $stLogRem, $kvHas, $kvVal
+//@   ensures $stLogN == old($stLogN) + len(genState.States)
+//@   prop C10 C12
+//@ loop InitGenesis#1
+//@   invariant 0 <= \i && \i <= len(genState.States) && $stLogN == old($stLogN) + \i
